@@ -370,3 +370,40 @@ Example atomic_load_store_rows_accepted_but_not_counter :
   drf_ok [ld; st] = true /\ counter_loc [ld; st] 0 = false
   /\ drf_ok [ld; st; split_one] = false.
 Proof. repeat split; reflexivity. Qed.
+
+(* ESCAPING-CALLER-MEMORY: the row the rule prints is the caller's next write to memory the interceptor
+   has retained: any thread, no lock the interceptor knows of.  More generally every non-atomic writing
+   row of class any without an exclusively held lock is rejected (it races with another instance of
+   itself: two callers / the caller and whoever reads the retained memory). *)
+Theorem drf_ok_rejects_write_any_without_exclusive_lock t r :
+  In r t -> (r_kind r = KWrite \/ r_kind r = KRmw) -> r_class r = CAny ->
+  (forall l m, In (l, m) (r_locks r) -> m = LR) ->
+  drf_ok t = false.
+Proof.
+  intros Hin K C Hl. apply (drf_ok_false_of_bad_pair t r r Hin Hin).
+  assert (Hc : conflict r r = true).
+  { unfold conflict. rewrite Z.eqb_refl. destruct K as [K|K]; rewrite K; reflexivity. }
+  unfold pair_ok, same_single, is_setup, before_of. rewrite Hc, C. cbn.
+  rewrite !orb_false_r.
+  unfold share_lock. apply not_true_is_false. intros H.
+  apply existsb_exists in H. destruct H as [[l1 m1] [H1 H]].
+  apply existsb_exists in H. destruct H as [[l2 m2] [H2 H]]. cbn in H.
+  apply andb_true_iff in H. destruct H as [_ H].
+  rewrite (Hl _ _ H1), (Hl _ _ H2) in H. discriminate.
+Qed.
+
+(* conversely, in an accepted table every non-atomic writing row of class any names a lock it holds
+   exclusively - so, on the machine, no two threads are inside it at once (lockset_drf) *)
+Corollary drf_ok_write_any_has_exclusive_lock t r :
+  drf_ok t = true -> In r t -> (r_kind r = KWrite \/ r_kind r = KRmw) -> r_class r = CAny ->
+  exists l, In (l, LW) (r_locks r).
+Proof.
+  intros Hok Hin K C.
+  destruct (existsb (fun p => match snd p with LW => true | LR => false end) (r_locks r)) eqn:E.
+  - apply existsb_exists in E. destruct E as [[l m] [Hl Hm]]. cbn in Hm. destruct m; [discriminate|]. eauto.
+  - exfalso. rewrite (drf_ok_rejects_write_any_without_exclusive_lock t r Hin K C) in Hok; [discriminate|].
+    intros l m Hl. destruct m; auto. exfalso.
+    assert (X : existsb (fun p => match snd p with LW => true | LR => false end) (r_locks r) = true).
+    { apply existsb_exists. exists (l, LW). split; auto. }
+    congruence.
+Qed.
